@@ -403,7 +403,7 @@ static Outcome run_inproc(const Case &c)
   o.sw_in_op = vsim::switches_in_op();
   g_engine.check(c, o.rr);
   if (vsim::alloc_end_run() > 0)
-    vsim::probe("alloc.address_reused_run");
+    vsim::probe("fault.addr_reuse");  // runs in which at least one freed address was handed out again
   o.violations = g_reported;
   g_cur_case   = nullptr;
   return o;
